@@ -224,6 +224,7 @@ def finite_difference(blk: Module, fromsig: Union[Signal, Iterable[Signal]] = No
                 # Do the perturbation
                 if is_iterable:
                     it[0] += dx*1j*sf
+                    Sin.state = x
                 else:
                     Sin.state = x0 + dx*1j*sf
 
@@ -273,6 +274,7 @@ def finite_difference(blk: Module, fromsig: Union[Signal, Iterable[Signal]] = No
                 # Restore original state
                 if is_iterable:
                     it[0] = x0
+                    Sin.state = x
                 else:
                     Sin.state = x0
 
